@@ -181,6 +181,13 @@ static void build_family(void)
 					}
 			}
 		}
+	/* starred groups that can match the empty string in more than one way (matching must still terminate) */
+	{
+		static const char *ns[] = {"(|a)*b", "(|$)*a", "(a*)*b", "(a|b*)*c", "(a?)*b", "(|a)+]", "(^|a)*b", "((|a)*)*b", "(\\<|a)*b", "(|a|b)*c"};
+		unsigned i;
+		for (i = 0; i < sizeof(ns) / sizeof(ns[0]); i++)
+			add_family("%s", ns[i]);
+	}
 	/* group counts around the mark table (64 marks = 32 groups) and the set limit */
 	{
 		static const int ks[] = {29, 30, 31, 32, 33, 34, 61, 62, 63, 64, 65, 66, 130};
